@@ -3,7 +3,7 @@
    entry word / key / payload it is meant to, for every shape and size. *)
 From Coq Require Import List NArith ZArith Bool Lia.
 Import ListNotations.
-From JB Require Import Constants Bytes Utf8 Num Value Codec TreeOps JsonText Dispatch CodecProofs RoundtripProofs DispatchProofs Walk.
+From JB Require Import Constants Bytes Utf8 Num Value Codec TreeOps JsonText Dispatch CodecProofs RoundtripProofs DispatchProofs Walk I32.
 Open Scope N_scope.
 Set Default Timeout 120.
 
@@ -618,6 +618,8 @@ Proof.
            |change (ARRAY_CONTAINER_TAG =? OBJECT_CONTAINER_TAG) with false; reflexivity].
         rewrite N.eqb_refl.
         replace (Z.of_N (lenN l)) with (lenZ l) by (unfold lenZ, lenN; rewrite nat_N_Z; reflexivity).
+        (* the generated guard / index expressions of both branches, in their reference form (I32.v) *)
+        rewrite GBK_T_REJECT_spec, GBK_B_REJECT_spec, GBK_T_INDEX_spec, GBK_B_INDEX_spec.
         destruct ((lenZ l <? i) || (lenZ l + i <? 0))%Z eqn:Eg; [reflexivity|].
         apply orb_false_iff in Eg. destruct Eg as [Eg1 Eg2]. apply Z.ltb_ge in Eg1. apply Z.ltb_ge in Eg2.
         set (z := (if (0 <=? i)%Z then i else lenZ l + i)%Z).
